@@ -144,7 +144,7 @@ class Case:
                 'meta': self.meta}
 
 class Outcome:
-    __slots__ = ('ret', 'handlers', 'fault', 'blocks', 'raw', 'statics')
+    __slots__ = ('ret', 'handlers', 'fault', 'blocks', 'raw', 'statics', 'alloc')
     def __init__(self, line):
         self.raw = line
         f = line.split()
@@ -154,6 +154,7 @@ class Outcome:
         self.handlers = [] if h == '-' else [tuple(x.split(':')) for x in h.split(',')]
         self.fault = d.get('fault', '-')
         self.statics = d['st'].split(',') if 'st' in d else []
+        self.alloc = tuple(int(z) for z in d['al'].split('/')) if 'al' in d else None
         self.blocks = []
         i = 0
         while 'b%d' % i in d:
